@@ -53,6 +53,8 @@ class Batch:
         """check(model_result) -> None if it agrees, else (model_value, impl_value)"""
         self.reqs.append(req)
         self.pend.append((pair, case, check))
+        if len(self.reqs) >= 2000:          # keep every driver call short (the interpreter handles ~30 requests / s on the heavy ops)
+            self.flush()
 
     def flush(self):
         if not self.reqs:
@@ -747,7 +749,7 @@ def corr_sampler(ctx, B):
             w0[j] = -w0[j] / 2            # a negative-weight peak (cat / Fock-like states)
         w0 = w0 / w0.sum()
         mode = rng.randrange(n)
-        covmat = m6.rand_cov(rng, 2) if it % 2 else np.eye(2)
+        covmat = m6.phys_cov(rng, 2) if it % 2 else np.eye(2)
         ix = [2 * mode, 2 * mode + 1]
         offs = [np.array([m6.dy(rng, -8, 8, 4), m6.dy(rng, -8, 8, 4)]) for _ in range(4)]
         us = [rng.choice([0.995, 0.9, 0.5]), rng.choice([0.95, 0.45]), 0.0]
@@ -1829,7 +1831,7 @@ def gen_multi_dyne_case(rng, backend):
     n = rng.randint(3, 4)
     modes = scrambled(rng, n, rng.randint(2, n - 1))
     k = len(modes)
-    return dict(n=n, modes=modes, backend=backend, prefix=_prefix(rng, n), sigma=m6.rand_cov(rng, 2 * k).tolist(),
+    return dict(n=n, modes=modes, backend=backend, prefix=_prefix(rng, n), sigma=m6.phys_cov(rng, 2 * k).tolist(),
                 off=[round(rng.uniform(-0.8, 0.8), 3) for _ in range(2 * k)])
 
 
